@@ -10,6 +10,7 @@
            ms <seed> <sessions>     multistream / projection encoders with their decoders
            fill <seed> <level>      multi-frame VBR packets nearly filling max_data_bytes (sub-frames >= 253 bytes, +-8 sweep)
            mssweep <seed> <level>   multistream / projection, max_data_bytes 1..600 exhaustively at high rates
+           redsw <seed> <sessions>  redundancy signalling under tight budgets (SILK-only, forced mode/bandwidth switches, +-16 sweep)
    Output: "V <what> | <expected> | <observed> | <context>" for every violated predicate,
            "# dist ..." distribution lines, "# lock cases=N violations=K".  All randomness from the seed. */
 #include "vcommon.h"
@@ -240,6 +241,49 @@ static void run_fill(uint64_t seed, int level)
    }
 }
 
+/* redundancy signalling under tight budgets: SILK-only NB/MB/WB at low rates, CBR and VBR, forced SILK<->CELT switches
+   (OPUS_SET_FORCE_MODE) and bandwidth changes so that CELT->SILK / SILK->CELT redundancy frames and bandwidth-switch
+   redundancy are emitted, max_data_bytes swept +-16 around the size the previous packet had (so that max_redundancy
+   clamps redundancy_bytes down to 2..4 and the encoder's budget test and the decoder's length test are both near their
+   thresholds).  Predicate per packet: parse, duration, decoded sample count and final-range equality. */
+static void run_redsw(uint64_t seed, long sessions)
+{
+   vrng r; long s; r.s = seed * 0xE7037ED1A0B428DBULL + 53;
+   for (s = 0; s < sessions; s++) {
+      static float x[5760 * 2];
+      static const int fss[] = {8000, 12000, 16000, 24000, 48000};
+      int fs = fss[vbelow(&r, 5)], ch = 1 + vbelow(&r, 2), err, k, steps = vrange(&r, 20, 60), last = 0, silk = 1;
+      int bwmax = fs == 8000 ? 1101 : fs == 12000 ? 1102 : 1103, vbr = vbelow(&r, 2), kind = 1 + vbelow(&r, 5);
+      double phase = 0; char ctx[256];
+      OpusEncoder *e = opus_encoder_create(fs, ch, vchance(&r, 70) ? OPUS_APPLICATION_VOIP : OPUS_APPLICATION_AUDIO, &err);
+      OpusDecoder *dec = opus_decoder_create(fs, ch, &err);
+      if (!e || !dec) continue;
+      g_hl = 0; g_hist[0] = 0;
+      CTL(e, "vbr", OPUS_SET_VBR, vbr); CTL(e, "cvbr", OPUS_SET_VBR_CONSTRAINT, vbelow(&r, 2));
+      CTL(e, "br", OPUS_SET_BITRATE, 6000 + (int)vbelow(&r, 18000) * ch);
+      CTL(e, "fmode", OPUS_SET_FORCE_MODE, MODE_SILK_ONLY);
+      CTL(e, "bw", OPUS_SET_BANDWIDTH, 1101 + (int)vbelow(&r, bwmax - 1100));
+      CTL(e, "cx", OPUS_SET_COMPLEXITY, vbelow(&r, 11));
+      for (k = 0; k < steps; k++) {
+         int d = DUR400[3 + vbelow(&r, 4)], afs, out, ret;
+         if (silk == 0) d = DUR400[2 + vbelow(&r, 2)];                       /* CELT frames: 10 / 20 ms */
+         afs = fs / 400 * d;
+         if (vchance(&r, 22)) { silk = !silk; CTL(e, "fmode", OPUS_SET_FORCE_MODE, silk ? MODE_SILK_ONLY : MODE_CELT_ONLY); }
+         else if (vchance(&r, 12)) CTL(e, "bw", OPUS_SET_BANDWIDTH, 1101 + (int)vbelow(&r, bwmax - 1100));
+         else if (vchance(&r, 8)) CTL(e, "br", OPUS_SET_BITRATE, 6000 + (int)vbelow(&r, 18000) * ch);
+         else if (vchance(&r, 5)) { CTL(e, "fmode", OPUS_SET_FORCE_MODE, OPUS_AUTO); silk = 1; }
+         if (vchance(&r, 10)) kind = 1 + vbelow(&r, 5);
+         out = 1500;
+         if (last > 3 && vchance(&r, 75)) { out = last + (vchance(&r, 50) ? vrange(&r, -16, 16) : -vrange(&r, 0, 3 * ((last + 19) / 20))); if (out < 2) out = 2; }
+         gen_pcm(&r, kind, x, afs, ch, fs, &phase);
+         snprintf(ctx, sizeof ctx, "redsw seed=%llu session=%ld step=%d fs=%d ch=%d frame=%d out=%d vbr=%d silk=%d", (unsigned long long)seed, s, k, fs, ch, afs, out, vbr, silk);
+         ret = encode_check(e, dec, x, afs, fs, ch, out, ctx);
+         if (ret > 0 && out == 1500) last = ret;
+      }
+      opus_encoder_destroy(e); opus_decoder_destroy(dec);
+   }
+}
+
 /* multistream / projection with their decoders: max_data_bytes swept exhaustively over 1..600 at high rates */
 static void run_mssweep(uint64_t seed, int level)
 {
@@ -365,6 +409,7 @@ int main(int argc, char **argv)
    else if (argc >= 4 && !strcmp(argv[1], "ms")) run_ms(strtoull(argv[2], 0, 10), atol(argv[3]));
    else if (argc >= 4 && !strcmp(argv[1], "fill")) run_fill(strtoull(argv[2], 0, 10), atoi(argv[3]));
    else if (argc >= 4 && !strcmp(argv[1], "mssweep")) run_mssweep(strtoull(argv[2], 0, 10), atoi(argv[3]));
+   else if (argc >= 4 && !strcmp(argv[1], "redsw")) run_redsw(strtoull(argv[2], 0, 10), atol(argv[3]));
    else { fprintf(stderr, "usage: c02_lockstep lock|ms <seed> <sessions>\n"); return 64; }
    printf("# dist modes silk=%ld hybrid=%ld celt=%ld | bw", d_mode[0], d_mode[1], d_mode[2]);
    for (i = 0; i < 5; i++) printf(" %ld", d_bw[i]);
